@@ -397,7 +397,11 @@ def sel_mutate(t, rng):
         return None
     e = rng.choice(evs)
     r = rng.random()
-    i = rng.randrange(len(e["out"]))
+    # close requests only delimit the comparison (the property does not compare them): corrupt messages / notifications
+    idx = [j for j, x in enumerate(e["out"]) if x[0] != "close"]
+    if not idx:
+        return None
+    i = rng.choice(idx)
     k, c = e["out"][i]
     if r < 0.4 and c:
         j = rng.randrange(len(c))
